@@ -27,7 +27,7 @@ def part_b(ck, replay=None):
             r = vf.require_ok(vf.tlc("ReqCacheGen", c, timeout=1500), c)
             ck.add_tlc(c, r)
             cases += r.cases
-    obs = vf.run_harness("reqcache", cases, timeout=3000)
+    obs = vf.run_harness("vconc", "reqcache", cases, timeout=3000)
     if len(obs) != len(cases):
         raise vf.NotAVerdict("reqcache harness returned %d of %d" % (len(obs), len(cases)))
     bad = 0
@@ -52,7 +52,7 @@ def part_b(ck, replay=None):
         events = 0
         for j, (g, k) in enumerate([(8, 3), (4, 1), (8, 2)]):
             tr = os.path.join(tmpd, "trace%d.ndjson" % j)
-            p = vf.build_harness(race=ck.thorough())
+            p = vf.build_harness("vconc", race=ck.thorough())
             env = vf.go_env()
             rp = subprocess.run([p, "reqcache-trace", "-out", tr, "-a", "seed=%d" % (ck.seed * 7 + j), "-a", "runs=%d" % nruns,
                                  "-a", "g=%d" % g, "-a", "k=%d" % k], env=env, capture_output=True, text=True, timeout=1500)
